@@ -113,7 +113,8 @@ def r12_1(ctx):
     ssql = _sql_of(sel[0])
     m = re.match(r"(?i)select (.*) from mailboxes", ssql)
     scols = [x.strip() for x in m.group(1).split(",")]
-    unpack = [s for s in body_walk(rd.node) if isinstance(s, ast.Assign) and isinstance(s.targets[0], ast.Tuple) and norm(s.value) == "results"]
+    row_vars = {norm(s.targets[0]) for s in body_walk(rd.node) if isinstance(s, ast.Assign) and isinstance(s.targets[0], ast.Name) and any(c is sel[0] for c in calls_in(s.value))}
+    unpack = [s for s in body_walk(rd.node) if isinstance(s, ast.Assign) and isinstance(s.targets[0], ast.Tuple) and norm(s.value) in row_vars]
     ctx.require(unpack, "_restore_from_db: tuple unpack of the row not found")
     tg = unpack[0].targets[0].elts
     if len(tg) != len(scols):
@@ -121,6 +122,10 @@ def r12_1(ctx):
     else:
         for c, t in zip(scols, tg):
             tn = t.attr if isinstance(t, ast.Attribute) else (t.id if isinstance(t, ast.Name) else norm(t))
+            if isinstance(t, ast.Name):
+                # a local: it must be what self.<column> is (re)built from
+                uses = [s2 for s2 in body_walk(rd.node) if isinstance(s2, ast.Assign) and any(norm(x) == f"self.{c}" for x in s2.targets) and t.id in {n.id for n in ast.walk(s2.value) if isinstance(n, ast.Name)}]
+                tn = c if uses else f"{t.id} (never stored into self.{c})"
             if tn == c:
                 ctx.ok("R12.1", where(rd), f"SELECT column {c} -> {norm(t)}")
                 read.add(c)
@@ -162,30 +167,39 @@ def r12_1(ctx):
     up = [c for c in calls_in(cd.node) if call_name(c) == "execute" and "insert into sequences" in (_sql_of(c) or "").lower()]
     ctx.require(up, "commit_to_db: sequences upsert not found")
     tup = _tuple_of(cd, up[0].args[1])
-    if tup and [norm(x) for x in tup] == ["name", "self.id", "sequence", "sequence", "self.id", "name"]:
+    from .common import pm_of
+    pmc = pm_of(p, cd)
+    if tup and pmc.has("(name, self.id, sequence, sequence, self.id, name)") and pmc.has("sequence = compact_sequence(self.sequences[name])"):
         ctx.ok("R12.1", where(cd), "sequences upsert binds (name, mailbox_id, sequence | sequence, mailbox_id, name)")
     else:
         ctx.bad("R12.1", cd.module, cd.qual, norm(up[0].args[1], 100), "sequences upsert binds its six placeholders in another order: flags are stored under another sequence / mailbox", up[0].lineno)
     rs = [s for s in body_walk(rd.node) if isinstance(s, ast.AsyncFor) and "select name, sequence from sequences" in norm(s.iter, 300).lower()]
-    if rs and any(isinstance(b, ast.Assign) and norm(b.targets[0]) == "(name, sequence)" and norm(b.value) == norm(rs[0].target) for b in rs[0].body):
+    if rs and any(isinstance(b, ast.Assign) and isinstance(b.targets[0], ast.Tuple) and len(b.targets[0].elts) == 2 and norm(b.value) == norm(rs[0].target) and _seq_row_use(rd, b) for b in rs[0].body):
         ctx.ok("R12.1", where(rd), "SELECT name, sequence -> (name, sequence)")
     else:
         ctx.bad("R12.1", rd.module, rd.qual, "name, sequence = row", "sequence rows are unpacked in another order than selected", rd.node.lineno)
     return written, read
 
 
+def _seq_row_use(rd, unpack):
+    """name, sequence = row : the first is used as the sequences key, the second is expanded."""
+    a, b = [norm(e) for e in unpack.targets[0].elts]
+    t = norm(rd.node, 30000)
+    return f"self.sequences[{a}] = set(expand_sequence({b}))" in t
+
+
 def r12_2(ctx):
     p = ctx.p
     cd = p.func("mbox.Mailbox.commit_to_db")
     rd = p.func("mbox.Mailbox._restore_from_db")
-    wtxt = " ".join(norm(s, 1000) for s in cd.node.body)
-    rtxt = " ".join(norm(s, 3000) for s in rd.node.body)
+    from .common import pm_of
+    pw, pr = pm_of(p, cd), pm_of(p, rd)
     pairs = [
-        ("uids", "compact_sequence(self.uids)" in wtxt, "self.uids = expand_sequence(uids)" in rtxt),
-        ("msg_keys", "compact_sequence(self.msg_keys)" in wtxt, "self.msg_keys = expand_sequence(msg_keys)" in rtxt),
-        ("sequences.sequence", "compact_sequence(self.sequences[name])" in wtxt, "set(expand_sequence(sequence))" in rtxt),
-        ("attributes", "','.join(self.attributes)" in wtxt, "set(attributes.split(','))" in rtxt),
-        ("subscribed", "self.subscribed" in wtxt, "self.subscribed = bool(self.subscribed)" in rtxt),
+        ("uids", pw.has("compact_sequence(self.uids)"), pr.has("self.uids = expand_sequence(uids) if uids else []")),
+        ("msg_keys", pw.has("compact_sequence(self.msg_keys)"), pr.has("self.msg_keys = expand_sequence(msg_keys) if msg_keys else []")),
+        ("sequences.sequence", pw.has("sequence = compact_sequence(self.sequences[name])"), pr.has("self.sequences[name] = set(expand_sequence(sequence))")),
+        ("attributes", pw.has("','.join(self.attributes)"), pr.has("self.attributes = set(attributes.split(','))")),
+        ("subscribed", pw.has("self.subscribed"), pr.has("self.subscribed = bool(self.subscribed)")),
     ]
     for name, w, r in pairs:
         if w and r:
@@ -195,9 +209,11 @@ def r12_2(ctx):
     # the two codec functions exist and mirror each other's separators
     cs = p.func("utils.compact_sequence")
     es = p.func("utils.expand_sequence")
-    ctxt = " ".join(norm(s, 600) for s in cs.node.body)
-    etxt = " ".join(norm(s, 600) for s in es.node.body)
-    if "','.join(" in ctxt and "f'{grouped_ints[0]}-{grouped_ints[-1]}'" in ctxt and "split(',')" in etxt and "split('-')" in etxt and "range(start, stop + 1)" in etxt:
+    from .common import pm_of
+    pc, pe = pm_of(p, cs), pm_of(p, es)
+    ar = [f for f in p.functions.values() if f.key == "utils.compact_sequence.as_range"]
+    par_ = pm_of(p, ar[0]) if ar else None
+    if pc.has("','.join(...)") and par_ is not None and par_.has("f'{grouped_ints[0]}-{grouped_ints[-1]}'") and pe.has("contents.split(',')") and pe.has("spec.split('-')") and pe.has("range(start, stop + 1)"):
         ctx.ok("R12.2", "utils:compact_sequence/expand_sequence", "separators agree (',' between items, '-' inside a range, inclusive upper end)")
     else:
         ctx.bad("R12.2", "utils", "compact_sequence", "',' / '-' / inclusive range", "compact_sequence and expand_sequence no longer agree on separators / inclusive range end", cs.node.lineno)
@@ -216,7 +232,11 @@ def r12_4(ctx):
     p = ctx.p
     sd = p.func("user_server.IMAPUserServer.shutdown")
     g = ctx.cfg(sd)
-    mb = {n.id for n in g.nodes if n.ast is not None and "mbox.shutdown()" in norm(n.ast, 300)}
+    from .common import pm_of
+    pms = pm_of(p, sd)
+    coll = pms.find("for _mbox_name, mbox in self.active_mailboxes.items():\n    mboxes.append(mbox)") or pms.find("for mbox in self.active_mailboxes.values():\n    mboxes.append(mbox)")
+    shut = pms.find("for mbox in mboxes:\n    tg.create_task(mbox.shutdown())") or pms.find("for mbox in mboxes:\n    await mbox.shutdown()") or pms.find("for mbox2 in mboxes:\n    tg.create_task(mbox2.shutdown())")
+    mb = set(g.nodes_for(shut)) if shut is not None else set()  # the loop over the collected mailboxes is reached
     dbc = {n.id for n in g.nodes if n.ast is not None and n.kind == "stmt" and "self.db.commit()" in norm(n.ast)}
     dbx = {n.id for n in g.nodes if n.ast is not None and n.kind == "stmt" and "self.db.close()" in norm(n.ast)}
     for what, s in (("mbox.shutdown() for the active mailboxes", mb), ("db.commit()", dbc)):
@@ -231,7 +251,7 @@ def r12_4(ctx):
     else:
         ctx.bad("R12.4", sd.module, sd.qual, "mbox.shutdown() before db.close()", "database closed before the mailboxes were committed", sd.node.lineno)
     # all active mailboxes are collected
-    if any(isinstance(s, (ast.For, ast.AsyncFor)) and "self.active_mailboxes" in norm(s.iter) and any("mboxes.append(mbox)" in norm(b) for b in s.body) for s in body_walk(sd.node)):
+    if coll is not None:
         ctx.ok("R12.4", where(sd), "every entry of active_mailboxes is collected for shutdown", nontrivial=False)
     else:
         ctx.bad("R12.4", sd.module, sd.qual, "for ... in self.active_mailboxes.items(): mboxes.append(mbox)", "not every active mailbox is shut down", sd.node.lineno)
